@@ -112,6 +112,9 @@ func NewMultiEndpoint(b *MultiEndpointOptions) (MultiEndpoint, error) {
 		switchingDelay:  b.SwitchingDelay,
 		current:         b.Endpoints[0],
 	}
+	// Recovery timers started below may fire before the constructor is done.
+	me.Lock()
+	defer me.Unlock()
 	eMap := make(map[string]*endpoint)
 	for i, e := range b.Endpoints {
 		eMap[e] = me.newEndpoint(e, i)
